@@ -19,8 +19,14 @@ d = d[:i] + ("## 10. Seeded changes and which checks catch them\n\nEach entry is
              "that saw only the property text and a scratch worktree (nothing of /verif), and was confirmed by hand: the suite passes with it, "
              "its own demonstration fails with it and passes without it (`tools/try_wt.sh`), and the listed check reports it on every run. "
              "\"after strengthening\" means the check as it stood missed the change and was extended (last column); nothing was loosened.\n\n"
-             + head + body + f"\n{len(rows)} seeded changes kept so far: waves 1-8 and 10 were written per property, wave 9 (S91-S106) per source "
-             f"region. Over all waves roughly half of the changes were missed by the checks as they stood when the change arrived; every one is "
-             f"caught now (`tools/all_seeds.sh`).\n") + rest
+             + head + body + f"\n{len(rows)} seeded changes kept so far, in 17 waves. The authors were steered differently from wave to wave: per property "
+             f"(waves 1-8, 10), per source region (9), interactions of two features (11), changes that break an earlier repair again (11), "
+             f"options (12), defaults / constants / data-dependent branches (13), numeric and textual boundaries and state that is already on "
+             f"disk (14), speed and tidiness - caches, early exits, merged passes (15), robustness and user-friendliness - broad handlers, "
+             f"fallbacks, tolerant parsing (16), modernising and porting - pathlib, scandir / glob, f-strings, other element builders (17). "
+             f"In every wave between half and three quarters of the changes were missed by the checks as they stood when the change "
+             f"arrived; after strengthening, every kept change is caught on the current /repo HEAD (`tools/all_seeds.sh`, "
+             f"`tools/all_seeds_par.sh`), except those marked RETIRED, which a later repair of /repo turned into correct code. "
+             f"Side remarks of the authors about the unchanged code were reproduced and, where genuine, repaired (F25, F27-F30).\n") + rest
 open("/verif/DESIGN.md", "w").write(d)
 print(len(rows), "seeds")
